@@ -221,6 +221,11 @@ def check_run(ctx, driver, atts, mode, pdesc, text_seed):
     if not m['full']:
         if fails:
             return fails             # the implementation seated / rejected differently: already reported with the request
+        if r.exceptions or r.status != 'DONE':
+            # the model has not seated four players on the requests served so far, yet the server stopped serving
+            fail('admission-stopped-early', {'status': r.status, 'exceptions': r.exceptions, 'blocked': r.deadlock,
+                                             'served': [atts[i] for i in order], 'model_table': m['table']})
+            return fails
         raise common.Infra('generated request set cannot fill the table: ' + json.dumps(atts))
     # 2. the four seated clients: Teams message, first board, end of session
     seated = [(order[pos], served[pos]) for pos in range(nserved) if m['verdicts'][pos] == 'seated']
